@@ -654,6 +654,26 @@ func c01(c *Ctx) {
 	c.Rule("C01.R7", "four-type exhaustiveness on the standalone path (C07.R6)", 10, func(r *Rule) {
 		fourTypeRule(c, r, nil)
 	})
+
+	c.Rule("C01.R9", "what a shard receives is merged without loss: the merge rules C07.R1-R5 / R8 on MetricMap.Merge* (the aggregator's ReceiveMap) and receive*", 40, func(r *Rule) {
+		sub := &Ctx{W: w, Prop: c.Prop, Tier: c.Tier, known: c.known}
+		c07(sub)
+		for _, sr := range sub.Rules {
+			switch sr.ID {
+			case "C07.R1", "C07.R2", "C07.R3", "C07.R4", "C07.R5", "C07.R5b", "C07.R8":
+			default:
+				continue
+			}
+			for _, o := range sr.Obls {
+				if strings.Contains(o.Key, "gostatsd.MetricMap") || sr.ID == "C07.R8" {
+					o2 := *o
+					o2.Rule = "C01.R9"
+					o2.Key = sr.ID + "/" + o.Key
+					r.Obls = append(r.Obls, &o2)
+				}
+			}
+		}
+	})
 }
 
 // switchTable maps named constants compared with == against the switched value to the block
